@@ -754,3 +754,31 @@ def dupname(repo):
     res.samples = [f"{n_sites} guarded insertions of new_scope"]
     res.analysed = [SR]
     return res
+
+
+def exactname(repo):
+    """R-EXACTNAME: enum names are recognised by an exact, whole-string comparison."""
+    res = RuleResult("R-EXACTNAME")
+    tp = Templates(repo)
+    name = "enum_from_name_case"
+    if name not in tp:
+        raise AnalysisError(f"template {name} vanished")
+    text = tp[name]["text"]
+    res.instances = 2
+    calls = re.findall(r"\b(strn?cmp|memcmp|strncasecmp|strcasecmp|starts_with|find|compare)\s*\(", text)
+    if not calls and "==" not in text:
+        res.add(f"{name}|compare", "enum_from_name_case no longer compares the candidate with the declared name", TEMPLATES, tp[name]["line"])
+    for c in calls:
+        if c != "strcmp":
+            res.add(f"{name}|{c}", f"enum_from_name_case matches names with {c}(): only a whole-string comparison maps each declared "
+                    "name, and nothing else, to its value (a bounded or prefix comparison accepts longer strings and can pick "
+                    "the wrong enumerator when one name is a prefix of another)", TEMPLATES, tp[name]["line"])
+    m = re.search(r"(!\s*strcmp\s*\(|strcmp\s*\([^)]*\)\s*==\s*0)", text)
+    if "strcmp" in calls and not m:
+        res.add(f"{name}|polarity", "strcmp result is not tested for equality (`!strcmp(...)` / `== 0`)", TEMPLATES, tp[name]["line"])
+    if '"${name}"' not in text or "${enum}::${value}" not in text:
+        res.add(f"{name}|operands", "the comparison is not between the declared name literal and the candidate, or the result is "
+                "not the matching enumerator", TEMPLATES, tp[name]["line"])
+    res.samples = [" ".join(text.split())[:120]]
+    res.analysed = [TEMPLATES]
+    return res
